@@ -458,6 +458,7 @@ def jobs(tier, seed):
         out.append({"part": "trunc", "calls": calls, "tier": tier})
         out.append({"part": "garbage", "calls": calls, "tier": tier})
     out.append({"part": "client", "tier": tier})
+    out.append({"part": "exposed", "tier": tier})
     out.append({"part": "sync", "tier": tier})
     sets = call_sets(tier)
     for lo in range(0, len(sets), 6):
@@ -930,6 +931,112 @@ def run_realsocket(spec, acc):
                                "calls": calls, "release_order": order, "unexpected": bad}, None)
 
 
+def exposed_by_source():
+    """Names decorated with @allow_rpc in the source of DirectorHandler (read from the syntax
+    tree, independently of what the running object answers)."""
+    import ast
+    import inspect
+
+    from stepup.core import director
+
+    tree = ast.parse(inspect.getsource(director))
+    out = set()
+    for cls in ast.walk(tree):
+        if isinstance(cls, ast.ClassDef) and cls.name == "DirectorHandler":
+            for fn in cls.body:
+                if isinstance(fn, (ast.FunctionDef, ast.AsyncFunctionDef)):
+                    for dec in fn.decorator_list:
+                        name = dec.id if isinstance(dec, ast.Name) else getattr(dec, "attr", None)
+                        if name == "allow_rpc":
+                            out.add(fn.name)
+    return out
+
+
+def run_exposed(spec, acc):
+    """The real DirectorHandler of a wired director, holding a real ReporterClient: every name
+    that can be looked up on it (its attributes and methods, those of the objects it holds,
+    dunder names, dotted names) is called through the real dispatch with several argument
+    shapes. Only the procedures decorated in the source may be invoked; everything else must be
+    refused without touching the reporter, the scheduler or the stored workflow."""
+    from stepup.core import rpc as su_rpc
+    from stepup.core.reporter import ReporterClient
+    from stepup.core.rpc import BaseAsyncRPCClient, RemoteFailure, RPCCall
+
+    from .. import opx
+
+    class Rec(BaseAsyncRPCClient):
+        def __init__(self):
+            self.calls = []
+
+        async def __call__(self, name, /, *args, **kwargs):
+            self.calls.append((name, args))
+
+    m = opx.Machine(menu=[], njob=2, targets_menu=((),), fs_events=False)
+    world = m.new_world()
+    sim = m.start_session(world, ())
+    try:
+        m.settle(sim)
+        handler = sim.handler
+        rec = Rec()
+        handler.reporter = ReporterClient(rec)
+        allowed = exposed_by_source()
+        names = set(dir(handler)) | set(vars(handler)) if hasattr(handler, "__dict__") else set(dir(handler))
+        held = {}
+        for n in list(names):
+            try:
+                obj = getattr(handler, n)
+            except Exception:  # noqa: BLE001
+                continue
+            if not n.startswith("__") and not callable(obj) or hasattr(obj, "__dict__") or hasattr(obj, "__slots__"):
+                held[n] = obj
+        for n, obj in held.items():
+            for sub in dir(obj):
+                if not sub.startswith("__"):
+                    names.add(sub)
+                    names.add(f"{n}.{sub}")
+        names |= {"__call__", "__init__", "__class__", "__getattribute__", "__dict__", "", "reporter", "call"}
+        shapes = [(), (1,), ("TAG", "forged", None), ("TAG", "forged", []), (1, [], [], [], [])]
+        base = sim.graph_text()
+        draining0 = handler.scheduler.draining
+        for name in sorted(names):
+            if name in allowed:
+                # exposed procedures are exercised by the other properties (and change state)
+                continue
+            for args in shapes:
+                task = sim.loop.create_task(su_rpc._call_and_capture_failure(handler, RPCCall(name, args, {})))
+                for _ in range(1000):
+                    sim.loop.run_ready()
+                    if task.done():
+                        break
+                    auto = [g for g in sim.enabled() if getattr(g, "kind", None) in ("hash", "rep")]
+                    if not auto:
+                        break
+                    sim.fire(auto[0])
+                acc.evaluations += 1
+                acc.nontrivial.add(h8(["exposed", name, args]))
+                reply = task.result() if task.done() else "no reply"
+                refused = isinstance(reply, RemoteFailure) and (
+                    "is not allowed" in reply.message or "Unknown remote procedure" in reply.message)
+                effects = []
+                if rec.calls:
+                    effects.append({"reporter_calls": list(rec.calls)})
+                    rec.calls.clear()
+                if handler.scheduler.draining != draining0:
+                    effects.append("scheduler.draining changed")
+                if sim.graph_text() != base:
+                    effects.append("stored workflow changed")
+                if not refused or effects:
+                    acc.violation(f"C16|exposed|{name}",
+                                  {"procedure": name, "args": repr(args), "reply": repr(reply)[:300],
+                                   "effects": effects, "exposed_in_source": sorted(allowed)}, None)
+        acc.states.add(h8(sorted(names)))
+        acc.count("names_tried", len(names))
+        acc.sample({"exposed_in_source": sorted(allowed), "names_tried": len(names)})
+    finally:
+        sim.close()
+        world.destroy()
+
+
 def run_job(spec):
     import logging
 
@@ -954,6 +1061,8 @@ def run_job(spec):
         run_burst(spec, acc)
     elif part == "realsocket":
         run_realsocket(spec, acc)
+    elif part == "exposed":
+        run_exposed(spec, acc)
     return acc
 
 
